@@ -42,7 +42,7 @@ Section Spec.
               o.(leb) (lo a b) x = true /\ o.(leb) x (hi a b) = true.
 
   (* laws of the scalar type used by the confinement theorem only (they hold for an extended-real line with an
-     incomparable NaN, see C09Proofs.ER; for binary64 they are exercised by execution, not proved) *)
+     incomparable NaN, see C09ER, and for binary64 = the table of primitive-float operations C09Float.fops, see C09B64) *)
   Record laws : Prop := {
     lt_le : forall a b, o.(ltb) a b = true -> o.(leb) a b = true;
     nlt_le : forall a b, o.(isfinite) a = true -> o.(isfinite) b = true -> o.(ltb) a b = false -> o.(leb) b a = true;
@@ -50,7 +50,10 @@ Section Spec.
     le_refl : forall a, o.(isfinite) a = true -> o.(leb) a a = true;
     finite_not_nan : forall a, o.(isfinite) a = true -> o.(isnan) a = false;
     nan_is_nan : o.(isnan) o.(fnan) = true;
-    mid_between : forall a b, o.(isfinite) a = true -> o.(isfinite) b = true -> o.(leb) a b = true ->
+    (* a <> b: on binary64 the law is FALSE for a = b an odd multiple of the smallest subnormal (halving is then inexact:
+       2^-1074 / 2 + 2^-1074 / 2 = 0, see C09B64.mid_equal_ends_escape); the confinement proof gets a <> b from the
+       different signs of f at the two ends of the bracket *)
+    mid_between : forall a b, o.(isfinite) a = true -> o.(isfinite) b = true -> o.(leb) a b = true -> a <> b ->
       let m := o.(add) (o.(div) a o.(two)) (o.(div) b o.(two)) in o.(leb) a m = true /\ o.(leb) m b = true
   }.
 End Spec.
